@@ -10,7 +10,7 @@ import "reflect"
 type VerifTypeFlags struct {
 	IsTime, IsRaw, IsRawExt, ExtRegistered, TimeBuiltin, BinaryEncoding, Json, RkStruct, RkArray bool
 
-	Selfer, SelferPtr                                                          bool
+	Selfer, SelferPtr                                                            bool
 	BinaryMarshaler, BinaryMarshalerPtr, BinaryUnmarshaler, BinaryUnmarshalerPtr bool
 	JsonMarshaler, JsonMarshalerPtr, JsonUnmarshaler, JsonUnmarshalerPtr         bool
 	TextMarshaler, TextMarshalerPtr, TextUnmarshaler, TextUnmarshalerPtr         bool
